@@ -218,7 +218,7 @@ REF_PROPS = {
                 quick_n=700, thorough_n=20000),
     "C07": dict(alphabet=["bin", "scal", "sum", "view", "setitem"], profiles=["c07"],
                 clauses=["val", "sh", "grad", "cr", "released", "leak", "base", "np_share"], depth=(2, 3), cases=[2, 5],
-                quick_n=500, thorough_n=15000),
+                quick_n=1200, thorough_n=15000),
     "C09": dict(alphabet=["bin", "scal", "sum", "setitem"], profiles=["c09"],
                 clauses=["val", "sh", "grad", "cr", "np_share"], depth=(2, 3), cases=[2, 5],
                 quick_n=1500, thorough_n=20000),
@@ -469,7 +469,7 @@ def check_C15(tier: str, seed: int) -> int:
             out.coverage["traces_validated_against_impl"] = out.coverage.get("traces_validated_against_impl", 0) + cst["tests_with_events"]
         finally:
             _sh.rmtree(sc, ignore_errors=True)
-        stage_traces(out, profile="c15", n=500 if quick else 15000,
+        stage_traces(out, profile="c15", n=1200 if quick else 15000,
                      clauses=["val", "sh", "const", "share", "base", "cr", "grad", "track", "np_share"])
     except tlc.MachineryError as e:
         out.machinery(str(e)[:3000])
